@@ -11,7 +11,7 @@ EXPLAIN = ('ITS execute (params source_chain, message_id, source_address, payloa
            'TrustedChain(decoded origin chain) present; (R3) source_address == stored ItsHubAddress; (R4) token movements '
            'are must-guarded by TokenIdConfigKey(decoded token id) present and by successful decoding of the recipient, the '
            'token moved is the registered token of that id; (R5) no non-trapping (try_) cross-contract call and no dropped '
-           'Result on the path.')
+           'Result on the path; (R6) the decoding clauses of the codec rules (C10.R1-R3, R5-R7) are evaluated as part of this property.')
 NOT_DECIDED = 'ABI decoder internals (T7); gateway-side exactly-once is C02.R3.'
 ASSUME = ['T1', 'T2', 'T3', 'T5', 'T6', 'T7']
 
@@ -122,6 +122,10 @@ def check(P, rep):
                       'execute:deploy:minter-term', 'the constructor\'s minter is the address decoded from the announced minter bytes', esite(g, e), fmt(args[1])[:200])
     from rules.c16 import gateway_binding
     gateway_binding(P, rep, 'C04.R1')
+    # "well-formed hub message": the codec clauses this statement relies on (strict decoding, tag/struct dispatch, field mapping, amount
+    # range check, no-panic inventory) are evaluated as part of this property
+    include_rules(P, rep, 'C04.R6', 'c10', lambda o: o['rule'] in ('C10.R1', 'C10.R2', 'C10.R3', 'C10.R5', 'C10.R6', 'C10.R7', 'FLOOR') and 'encode' not in (o.get('key') or o['what']),
+                  'delivered payloads are decoded strictly and only well-formed messages (amount < 2^127, supported types, exact lengths) are acted on', 30)
     storage_classes(P, rep, 'C04.R2', CN, {'TrustedChain': 'persistent', 'TokenIdConfigKey': 'persistent', 'Gateway': 'instance', 'ItsHubAddress': 'instance'})
     trys = [e for e in effects(g) if e.kind in ('xcall', 'invoke') and e.try_]
     rep.check(not trys, 'C04.R5', 'execute:no-try-calls', 'no non-trapping (try_) cross-contract call', entry_id(g), '; '.join(x.describe() for x in trys)[:200])
